@@ -698,6 +698,7 @@ class Interp(object):
         self.top_contract = None
         self.ghost_globals = {}
         self.prefer_variant = None
+        self.opaque_outside = None      # modules whose code is interpreted; others opaque
         from . import models
         self.models = models
 
@@ -889,6 +890,8 @@ class Interp(object):
     def hashable(self, k):
         if isinstance(k, SEnum):
             return self.resolve_enum(k)
+        if isinstance(k, Opaque):
+            return k          # uninterpreted values are keys by identity
         if is_symbolic(k) and not isinstance(k, Obj):
             raise OutOfFragment("symbolic dictionary key %r" % (k,))
         return k
@@ -1058,6 +1061,14 @@ class Interp(object):
             raise OutOfFragment("iteration over a symbolic range needs a loop invariant")
         if hasattr(it, '__iter__') and not is_symbolic(it):
             return list(it)
+        if isinstance(it, Opaque) and self.opaque_outside is not None:
+            # an uninterpreted collection (a payload list of a response): zero or one element
+            self.path.session.assumptions.add(
+                "uninterpreted collections are iterated zero or one time (bounded; only in contracts "
+                "that check result-status handling, where the loop body is not part of the clause)")
+            if self.path.choose(2, "opaque-iter") == 0:
+                return []
+            return [Opaque('object', it.name + '[]', it.taint)]
         raise OutOfFragment("iteration over %r needs a loop invariant" % (it,))
 
     def e_Call(self, node, env):
@@ -1165,6 +1176,13 @@ class Interp(object):
                     return self.models.native_descriptor(self, obj, k, name, a)
                 r = self.models.class_data_attr(self, obj, k, name, a)
                 return r
+        dyn = None
+        for k in mro:
+            if '_pyvc_dynamic' in k.__dict__:
+                dyn = k.__dict__['_pyvc_dynamic']
+                break
+        if dyn is not None:
+            return dyn(self, obj, name)
         tname = (cls or (mro[0] if mro else object)).__name__
         self.raise_py(AttributeError, "'%s' object has no attribute '%s'" % (tname, name))
 
@@ -1540,6 +1558,10 @@ class Interp(object):
     def call_function(self, fn, args, kwargs, force_body=False):
         """Call a live Python function of the repository (or a spec function)."""
         mod = getattr(fn, '__module__', '') or ''
+        if self.opaque_outside is not None and not mod.startswith('contracts') and \
+                not any(mod == m or mod.startswith(m + '.') for m in self.opaque_outside):
+            return self.models.opaque_external(self, "%s.%s" % (mod, getattr(fn, '__qualname__', '?')),
+                                               args, kwargs)
         if not (mod == 'kmip' or mod.startswith('kmip.') or mod.startswith('contracts')):
             # third-party / stdlib Python code is never interpreted: it is an external call
             return self.models.native_call(self, fn, args, kwargs)
